@@ -180,14 +180,14 @@ def run_one(kind, connect_answers, actions, prefix):
     if kind == "serial":
         gs.serial = types.SimpleNamespace(serial_for_url=env.serial_for_url, SerialException=serial.SerialException, threaded=serial.threaded, tools=serial.tools)
         gs.time = clock
-        gw = gs.SerialGateway("/dev/ttyVERIF", reconnect_timeout=R, protocol_version="2.2")
+        gw = gs.SerialGateway("/dev/ttyVERIF", timeout=0.25, reconnect_timeout=R, protocol_version="2.2")
     else:
         import socket as _socket
 
         gt.socket = types.SimpleNamespace(create_connection=env.create_connection, timeout=_socket.timeout)
         gt.select = types.SimpleNamespace(select=env.select)
         gt.time = clock
-        gw = gt.TCPGateway("198.51.100.9", reconnect_timeout=R, protocol_version="2.2")
+        gw = gt.TCPGateway("198.51.100.9", timeout=0.25, reconnect_timeout=R, protocol_version="2.2")
     gw.on_conn_made = lambda g: env.log.append(("made", S.vtime(), g is gw))
     gw.on_conn_lost = lambda g, exc: env.log.append(("lost", S.vtime(), type(exc).__name__ if exc else None, g is gw))
     S.PUMP_TASKS[0] = gw.tasks
